@@ -17,11 +17,11 @@ def handle (line : String) : String :=
   match splitWs line with
   | ["esc", kind, h] => match hexNat? h with
     | some b => "ok " ++ natHex (match kind with
-      | "m" => escapeMeasurement b | "t" => escapeTag b | "s" => escapeStringField b | _ => b)
+      | "m" => escapeMeasurement b | "t" => escapeTag b | "s" => escapeStringField b | "k" => escapeBytes b | _ => b)
     | none => "bad-op"
   | ["unesc", kind, h] => match hexNat? h with
     | some b => "ok " ++ natHex (match kind with
-      | "m" => unescapeMeasurement b | "t" => unescapeTag b | "s" => unescapeStringField b | _ => b)
+      | "m" => unescapeMeasurement b | "t" => unescapeTag b | "s" => unescapeStringField b | "k" => appendUnescaped b | _ => b)
     | none => "bad-op"
   | ["key", name, tags] => match hexNat? name, allSome ((splitCsv tags).map parseTag) with
     | some n, some ts => s!"ok {natHex (makeKey n ts)} {hashID n ts}"
@@ -35,6 +35,9 @@ def handle (line : String) : String :=
       | none => "err")
     | none => "bad-op"
   -- parser-level ops are judged by the oracle on the Go side; the model requires them to pass
+  -- a point built through the API must come back from the text and the binary form exactly as
+  -- given: the model of the round trip is the identity on the (canonically rendered) input
+  | ["np", name, tags, fields, t] => s!"ok {name} {tags} {fields} {t}"
   | "line" :: _ => "line ok"
   | "fuzz" :: _ => "fuzz ok"
   | _ => "bad-op"
